@@ -79,7 +79,7 @@ def gen_flow(seed: int, n: int) -> List[Scn]:
                "ackable": rng.random() < 0.75,
                "msgs": _msgs(rng, M, ["valid"] * 7 + ["malformed", "unknown", "minus1", "empty"], ["ta0", "ta0", "ts0", "ta"],
                              instant_p=0.15, outcomes=["ret", "exc", "cerr"], timeout_p=0.1, ackfail_p=0.08)}
-        steps = _flow_steps(rng, cfg, rng.randint(3, 14), ["ret", "ret", "exc", "nores", "cerr"], midflight=(k % 3 == 0))
+        steps = _flow_steps(rng, cfg, rng.randint(3, 14), ["ret", "ret", "exc", "nores", "cerr", "sysexit"], midflight=(k % 3 == 0))
         mode = rng.random()
         if mode < 0.55:
             steps += EPILOGUE_CLEAN
@@ -175,7 +175,7 @@ def gen_probe(seed: int, n: int) -> List[Scn]:
         H = rng.randint(1, 6)                 # history length
         probe_n = (A if A else 3) + P + 2
         hist = _msgs(rng, H, ["valid"] * 6 + ["malformed", "unknown", "empty", "minus1"], ["ta0", "ts0", "ta"], instant_p=0.4,
-                     outcomes=["ret", "exc", "base", "nores", "cerr"], timeout_p=0.3, savefail_p=0.3, ackfail_p=0.25)
+                     outcomes=["ret", "exc", "base", "nores", "cerr", "sysexit"], timeout_p=0.3, savefail_p=0.3, ackfail_p=0.25)
         msgs = hist + [{"kind": "valid", "task": "ta0"} for _ in range(probe_n)]
         mws = []
         if rng.random() < 0.5:
